@@ -11,7 +11,7 @@ from mc.forkexec import pristine, run_in_child, warm_scipy
 ID = "C14"
 LEVEL = "model_checking"
 RULE = (
-    "states = histories N_1 .. N_k ; observe M with k <= 2 (quick) / 3 (thorough): M ranges over 13 models (views whose generated name and size do not identify their elements - partial matrix rows, stepped and reversed slices - with the variant 'other view of the same name and size'; scalar NLP "
+    "states = histories N_1 .. N_k ; observe M with k <= 2 (quick) / 3 (thorough): M ranges over 14 models (a bare vectorised power sum over a strict subset of the variables, with the variant 'unrelated dense model with the same number of variables'; views whose generated name and size do not identify their elements - partial matrix rows, stepped and reversed slices - with the variant 'other view of the same name and size'; scalar NLP "
     "with a parameter, LP over a vector, vector QP, quadratic form, bare-parameter gradient p*w, a Variable as the "
     "whole expression, a Parameter as the whole expression, matrix sums, vectorised power / function sums, a "
     "450-term chain, parameterised constraint, norms) and every N_i over an adversarial menu derived from M: the "
@@ -133,7 +133,22 @@ def model_builders():
         vs = [W[i, j] for i in range(2) for j in range(3)] + list(x)
         return dict(e=e, cons=[], vars=vs, P=Problem().minimize(e), roots=[W[0, 1], x[4]], no_hessian=True)
 
+    def m_bare_power(v=None):
+        # a bare vectorised power sum over a strict subset of the problem's variables (sparse Hessian fast path);
+        # variant 'dense': an unrelated model with the SAME NUMBER of variables and a dense Hessian
+        x = VectorVariable("x", 2, lb=alt(v, "bounds", 0.5, 0.25), ub=3.0)
+        y = Variable("y", lb=0.0, ub=2.0)
+        if v == "dense":
+            a, b, c_ = Variable("a", lb=0.1, ub=2.0), Variable("b", lb=0.1, ub=2.0), Variable("c", lb=0.1, ub=2.0)
+            e = (a * b + b * c_ + c_ * a) ** 2 + optyx.exp(a - b) + (c_ - 1) ** 4
+            con = a + b + c_ <= 4
+            return dict(e=e, cons=[con], vars=[a, b, c_], P=Problem().minimize(e).subject_to(con), roots=[a])
+        e = (x ** alt(v, "data", 4, 3)).sum()
+        con = x[0] + x[1] + y >= 2.5
+        return dict(e=e, cons=[con], vars=[x[0], x[1], y], P=Problem().minimize(e).subject_to(con), roots=[x[0]])
+
     return {
+        "bare-power": m_bare_power,
         "views": m_views,
         "scalar-nlp": m_scalar, "lp": m_lp, "vector-qp": m_qp, "quadratic-form": m_qform,
         "param-gradient": m_param_gradient, "variable-root": m_variable_root, "parameter-root": m_parameter_root,
@@ -225,7 +240,9 @@ def act(built, action):
                 compiler.compile_gradient(e, V)
                 autodiff.compile_jacobian([e] + [c.expr for c in built["cons"]], V)
                 if not built.get("no_hessian"):
-                    autodiff.compile_hessian(e, V)
+                    hf = autodiff.compile_hessian(e, V)
+                    hf(np.array([0.5 + 0.25 * i for i in range(len(V))]))      # compiled callables are also CALLED
+                compiler.compile_gradient(e, V)(np.array([0.5 + 0.25 * i for i in range(len(V))]))
             elif action == "degree":
                 e.degree
                 e.is_linear()
@@ -355,7 +372,7 @@ def execute(model, prefix):
 
 
 def menu(model=None):
-    variants = VARIANTS + (("view",) if model == "views" else ())
+    variants = VARIANTS + (("view",) if model == "views" else ()) + (("dense",) if model == "bare-power" else ())
     m = [("adv", v, a) for v in variants for a in ACTIONS]
     m += [("flood", "compiles"), ("flood", "gradients")]
     m += [("reuse", v, a) for v in VARIANTS for a in REUSE_ACTIONS]
@@ -372,7 +389,7 @@ def histories(tier, model=None):
     for a in M:
         yield (a,)
     if tier == "quick":
-        core = [x for x in M if x[0] == "flood" or (x[0] == "adv" and x[1] in ("same", "pvalue", "data", "bounds", "view") and x[2] in ("compile", "roots", "solve-auto", "nested-compile"))
+        core = [x for x in M if x[0] == "flood" or (x[0] == "adv" and x[1] in ("same", "pvalue", "data", "bounds", "view", "dense") and x[2] in ("compile", "roots", "solve-auto", "nested-compile"))
                 or x in (("reuse", "data", "gradient"), ("reuse", "pvalue", "degree"))]
         for a in core:
             for b in core:
@@ -381,7 +398,7 @@ def histories(tier, model=None):
         for a in M:
             for b in M:
                 yield (a, b)
-        core = [x for x in M if x[0] == "flood" or (x[0] == "adv" and x[1] in ("same", "pvalue", "data", "view") and x[2] in ("compile", "roots", "solve-auto"))
+        core = [x for x in M if x[0] == "flood" or (x[0] == "adv" and x[1] in ("same", "pvalue", "data", "view", "dense") and x[2] in ("compile", "roots", "solve-auto"))
                 or (x[0] == "reuse" and x[1] == "data" and x[2] in ("gradient", "degree"))]
         for t in itertools.product(core, repeat=3):
             yield t
